@@ -8,8 +8,13 @@ def gen_pipeline(rng, proto, n):
     """returns (frames, hdrs, reqs, svc entries)"""
     frames, hdrs, reqs, svc = [], [], [], []
     for i in range(n):
+        if i > 0 and rng.random() < 0.2:
+            # the SAME request again, byte for byte (cyclic writes do that); an echoing reply then equals the request frame itself
+            frames.append(frames[-1]); hdrs.append(hdrs[-1]); reqs.append(reqs[-1])
+            svc.append(svc[-1] if rng.random() < 0.7 else ("exc", rng.randrange(256)))
+            continue
         while True:
-            req = mb.rnd_req(rng)
+            req = mb.rnd_req(rng, rng.choice(["WSC", "WSR", "MWR"])) if rng.random() < 0.25 else mb.rnd_req(rng)
             if mb.spec_req_size(req) <= 253 and (proto == "tcp" or cligen.rtu_supported_req(req)) and (proto == "tcp" or mb.spec_req_size(req) <= 60):
                 break
         cl = mb.classify_req(mb.spec_req_pdu(req))
